@@ -109,6 +109,9 @@ MonRet(m, e) ==
             ELSE LET c == ContentClause(m, e, CHOOSE l \in mine : TRUE) IN IF c = "ok" THEN m ELSE Bad(m, c)
   ELSE m
 
+\* a new connection is made: every stream of the previous one is gone (nothing may be sent on them any more); their ids stay used
+MonConn(m) == [m EXCEPT !.st = [l \in DOMAIN m.st |-> [m.st[l] EXCEPT !.hostClosed = TRUE, !.devClosed = TRUE, !.devUn = 0, !.hostUn = FALSE]]]
+
 \* the caller closes a streaming generator before the device closed the stream: whatever was delivered to the caller has been acknowledged
 \* (the stream itself is left as it is: the library sends nothing when a generator is closed)
 MonAbandon(m, e) == IF \E l \in Mine(m, e.t) : m.st[l].devUn > 0 /\ ~m.st[l].hostClosed THEN Bad(m, "C04.MissingOkay") ELSE m
